@@ -60,9 +60,6 @@ package fasthttp
 //@ func RequestHeader.SetProtocolBytes
 //@   property C05
 
-//@ func RequestHeader.SetCookie
-//@   property C05
-
 //@ func RequestHeader.SetCookieBytesK
 //@   property C05
 
